@@ -155,4 +155,22 @@ def replay(w):
 
 
 def validate(witnesses):
-    return {'checked': 0, 'agree': 0, 'skipped': len(witnesses), 'disagree': []}
+    """The engine found the property to hold on these fault schedules: the real build (real pool,
+    real worker processes) must agree."""
+    checked = agree = skipped = 0
+    disagree = []
+    for w in witnesses:
+        nt = w.get('notes') or {}
+        if nt.get('kind') != 'task' or checked >= 10:
+            skipped += 1
+            continue
+        r = replay({'notes': nt, 'inputs': w.get('inputs'), 'obligation': 'task_fault_propagates_unchanged'})
+        if r['observed'].get('note') == 'fault position not reached':
+            skipped += 1
+            continue
+        checked += 1
+        if not r['reproduced']:
+            agree += 1
+        else:
+            disagree.append({'notes': nt, 'real': r})
+    return {'checked': checked, 'agree': agree, 'skipped': skipped, 'disagree': disagree[:5]}
